@@ -10,6 +10,7 @@ receives exactly that command; exactly the callbacks whose patterns match fire, 
 import asyncio
 
 import cmduniv
+import priv
 import vloop
 
 ASSUMPTIONS = ["callbacks do not register or cancel listeners re-entrantly"]
@@ -97,7 +98,7 @@ def run_history(evs, classes):
         if batch:
             loop.call_soon(do, batch)
             loop.settle()
-        n_left = sum(len(v) for v in api._listeners.values())
+        n_left = sum(len(v) for v in (priv.get(api, "api", "listeners") or {}).values())
     finally:
         loop.close()
         asyncio.set_event_loop(None)
